@@ -376,15 +376,6 @@ Definition alone_steps (p : list nat) : nat := 2 * length p + 2.
 Definition run_alone (p : list nat) (v : state) (t : rtree) : cstate :=
   run_sched (repeat 0%nat (alone_steps p)) (cinit t [(p, v)]).
 
-(* every critical leaf in ERROR has only ERROR ancestors *)
-Fixpoint err_up_b (t : rtree) : bool :=
-  match t with
-  | Leaf _ _ _ => true
-  | Agg s _ cs =>
-      (negb (existsb (state_beq ERROR) (crit_states t)) || state_beq s ERROR) &&
-      forallb err_up_b cs
-  end.
-
 (* ------------------------------------------------------------------ *)
 (* 8. Decidable equalities for observations                            *)
 (* ------------------------------------------------------------------ *)
